@@ -26,7 +26,7 @@ MODE_METHODS = ("on_enable", "on_iteration", "on_disable")
 def mode_loop_sites(traces):
     """the mode loop of a function is the outermost loop that contains the NotifierDelay wait (DESIGN.md C05).
     Loops of a generator body nest within that generator only (its body is interleaved with its consumer): the
-    wait belongs to the innermost running generator that has a loop open, else to the plain call stack."""
+    loops open on the plain call stack come first, then those of the generators that were running, outermost first."""
     sites = set()
     for tr in traces:
         stacks = {}
@@ -38,7 +38,7 @@ def mode_loop_sites(traces):
                 if stacks.get(ctx):
                     stacks[ctx].pop()
             elif e.kind == "ext" and e.name == "hal.waitForNotifierAlarm":
-                for c in list(reversed(e.gen)) + [None]:
+                for c in [None] + list(e.gen):  # outermost first: the plain call stack, then enclosing generators
                     if stacks.get(c):
                         sites.add(stacks[c][0])
                         break
